@@ -69,7 +69,8 @@ def run_case(case):
     seeds = None
     if seedkey and rng.random() < 0.5:
         seeds = [rng.choice([0x0000, 0x0001, 0xFFFE, 0xFFFF, rng.randrange(1 << 16)]) for _ in range(40)]
-    DW = D.Dm14World(case['seed'], seedkey=seedkey, seeds=seeds, windows=(rng.choice([1, 255]), rng.choice([1, 255])), latency=(0.0001, 0.003))
+    ca_, sa_ = rng.choice([(D.CLI, D.SRV), (D.CLI, D.SRV), (0x00, D.SRV), (D.CLI, 0x00), (253, 1)])
+    DW = D.Dm14World(case['seed'], seedkey=seedkey, seeds=seeds, windows=(rng.choice([1, 255]), rng.choice([1, 255])), latency=(0.0001, 0.003), cli_addr=ca_, srv_addr=sa_)
     E = ErrorServer(DW.W.bus, DW.sim)
     viol = M.Violations()
     tag = dict(layer='dm14')
@@ -134,7 +135,7 @@ def run_case(case):
         what = '%s #%d (%d x %d bytes, fail=%s, seed/key %s, via %s, previous %s)' % (op['kind'], k, op['count'], op['size'], fail, seedkey, via, prev_fail if k else 'none')
         wtag = dict(fail=str(fail), after=str(prev_fail) if k else 'start', op=op['kind'], **tag)
         # ---- the gate: nothing is handed over / served before the right key arrived --------------------------------
-        if seedkey and op.get('dest', D.SRV) == D.SRV:
+        if seedkey and op.get('dest', DW.srv_addr) == DW.srv_addr:
             obs['gate_checks'] += 1
             for p in pcs:
                 issued = [s for (t, s) in DW.seeds_issued if t <= p['t']]
